@@ -122,6 +122,10 @@ theorem WF_stop (x : Act) (r : Res) (hst : ∀ j ∈ x.stack, deferredAt x.def_.
   unfold Act.stop
   exact ⟨fun h => (by cases h), hst, fun h => (by cases h), fun j h => (by cases h)⟩
 
+theorem WF_stopDeps (x : Act) (r : Res) (hst : ∀ j ∈ x.stack, deferredAt x.def_.cmds j) : WF (x.stopDeps r) := by
+  unfold Act.stopDeps
+  exact ⟨fun h => (by cases h), hst, fun h => (by cases h), fun j h => (by cases h)⟩
+
 theorem WF_afterCmd (x : Act) (c : Cmd) (r : Res) (hw : WF x) (hb : bodyish x.phase = true) :
     WF (x.afterCmd c r) := by
   obtain ⟨hrest, c0, cs0, hcons, _⟩ := hw.rest hb
@@ -172,7 +176,8 @@ theorem WF_local (F : Flags) (o : Obs) (x : Act) (ev : Ev) (y : Act) (eff : Eff)
   steplocal_cases h
   all_goals (try (first
     | (refine WF_same x _ rfl rfl rfl rfl ?_ ?_ ?_ hw <;> simp_all [bodyish, deferRunning]; done)
-    | (exact WF_stop _ _ hw.stack)))
+    | (exact WF_stop _ _ hw.stack)
+    | (exact WF_stopDeps _ _ hw.stack)))
   -- guardsPassed
   · exact WF_next x _ 0 (by simp) hw.stack
   -- cmdEnd (body)
@@ -202,7 +207,7 @@ theorem WF_local (F : Flags) (o : Obs) (x : Act) (ev : Ev) (y : Act) (eff : Eff)
 activations waited for have returned successfully, no dedup key is registered -/
 def freeObs : Obs :=
   { capFree := true, cancelled := fun _ => false, deps := fun _ => some [], callKid := fun _ => some .ok,
-    registered := fun _ => false, execResult := fun _ => some .ok }
+    registered := fun _ => false, execResult := fun _ => some {} }
 
 /-- an event the activation can perform next (under `freeObs`) -/
 def someEv (F : Flags) (x : Act) : Ev :=
